@@ -52,8 +52,7 @@ TRUSTED = [
     "hash as a parameter and the check compares equality patterns of keys",
 ]
 ASSUMPTIONS = [
-    "rows are identified by an opaque id; bit-identity of all other bytes is checked by the oracle on the real arrays (4 dtypes; the quick tier uses "
-    "the endtime and the dt*length encodings only, to keep numba compilation short)",
+    "rows are identified by an opaque id; bit-identity of all other bytes is checked by the oracle on the real arrays (4 dtypes in both tiers)",
     "target_size_mb / chunk_target_size_mb / chunk_source_size_mb are mapped monotonically to a row count",
     "per-chunk processing is modelled for plugins that compute chunk by chunk without state (LoopPlugin / OverlapWindowPlugin are "
     "refused by strax itself); the harness target plugin is a row filter",
@@ -259,6 +258,7 @@ def boundary_msgs(msgs, case, chunks, what, only_split=False):
 
 
 _SIDE = {}
+OBS = Counter()      # observations outside the property's quantifier, reported as an evidence note
 
 
 def case_key(case):
@@ -651,6 +651,14 @@ def impl_merge(case):
                 return f"ok key={key_s} ## absent"
             md, _n, files = d
             loaded_s, chunks = show_loaded(lambda: load_chunks(st.storage[0].loader(st.key_for(RUN, TGT, chunk_number=cn))))
+            if not proper and plain and chunks is not None:
+                # observation (outside the quantifier): a selection that is not the ordered partition of all chunks but passes the
+                # min/max completeness test is stored under the plain key; count how often the stored rows are NOT the direct ones
+                OBS["odd selections stored under the plain key"] += 1
+                st_o = new_context(case, [c_dir])
+                direct_o = attempt([], "direct", lambda: (st_o.make(RUN, SRC), st_o.get_array(RUN, TGT, progress_bar=False))[1])
+                if direct_o is not None and bytes_of_chunks(chunks, dt) != direct_o.tobytes():
+                    OBS["… of which the stored rows differ from the directly made data (hole or wrong order)"] += 1
             if proper:
                 if not st.is_stored(RUN, TGT):
                     msgs.append("target is not stored after merging all per-chunk results")
@@ -806,7 +814,7 @@ def gen_layout(rng, style=None, n_rows=None):
     return [[a, b, [list(r) for r in rs]] for a, b, rs in parts], style
 
 
-_ENCS = {"use": ENCS}     # quick tier: two of the four dtypes (every dtype costs one numba compilation of strax's kernels per run)
+_ENCS = {"use": ENCS}     # all four dtypes in both tiers
 
 
 def base(rng, op, **kw):
@@ -842,7 +850,7 @@ def run(ctx):
     rng = ctx.rng
     dist = Counter()
     timing = []
-    _ENCS["use"] = ENCS if ctx.thorough else ["end", "len"]
+    _ENCS["use"] = ENCS
 
     def nontriv(c, o):
         return len(c.get("layout", [0, 0])) >= 2 and sum(len(x[2]) for x in c.get("layout", [])) >= 2
@@ -868,7 +876,7 @@ def run(ctx):
 
     # ---- 1. copy_to_frontend
     cases = []
-    for _ in range(ctx.pick(160, 800)):
+    for _ in range(ctx.pick(130, 800)):
         nt = rng.choice([1, 1, 2, 3])
         cases.append(base(rng, "copy", dst_comp=rng.choice(COMPRESSORS + [None]), rechunk=rng.randint(0, 1), rechunk_to=rng.randint(1, 7),
                           proc=rng.choice(["single_thread", "threaded_mailbox"]), ntargets=nt, explicit=bool(nt == 1 and rng.random() < 0.5)))
@@ -890,7 +898,7 @@ def run(ctx):
     def rech_branch(c, o):
         return f"{c['parallel']}:{c['dest']}:rep{c['replace']}:re{c['rechunk']}:" + ("err" if " e=- " not in o else "ok")
 
-    cases = [rech_case("serial") for _ in range(ctx.pick(140, 700))]
+    cases = [rech_case("serial") for _ in range(ctx.pick(120, 700))]
     go("rechunker/serial", cases,
        "strax.rechunker in serial mode on the same layouts x compressor (4 + unchanged) x target size (1..7 rows + unchanged) x rechunk on/off x "
        "{new location, new location + replace, in place (temp dir) + replace}: the traced sequence of directory-level operations, the final source / "
@@ -898,8 +906,8 @@ def run(ctx):
        branch=rech_branch)
     cases = [rech_case("thread") for _ in range(ctx.pick(40, 250))]
     go("rechunker/thread", cases, "the same through parallel='thread' (mailbox + ThreadPoolExecutor(2))", branch=rech_branch)
-    if ctx.thorough:
-        cases = [rech_case("process") for _ in range(16)]
+    if True:
+        cases = [rech_case("process") for _ in range(ctx.pick(3, 16))]
         go("rechunker/process", cases, "the same through parallel='process' (writes happen in worker processes: the operation trace is compared "
            "without the chunk writes)", branch=rech_branch, model_post=strip_writes)
     # destination = the source directory itself (known finding rechunker-dest-is-source)
@@ -910,7 +918,7 @@ def run(ctx):
 
     # ---- 3. rechunk on load
     cases = []
-    for _ in range(ctx.pick(160, 800)):
+    for _ in range(ctx.pick(130, 800)):
         via = rng.choice(["context", "context", "loader"])
         proc = rng.choice(["single_thread", "threaded_mailbox"]) if via == "context" else "-"
         cases.append(base(rng, "rol", rol=1, source_size=rng.randint(1, 7), via=via, proc=proc,
@@ -923,7 +931,7 @@ def run(ctx):
 
     # ---- 4. per-chunk make + merge
     cases = []
-    n_lay = ctx.pick(10, 50)
+    n_lay = ctx.pick(16, 50)
     for _ in range(n_lay):
         proto = base(rng, "merge", style=rng.choice(["tiny", "empties", "mixed", "giant"]), n_rows=rng.randint(1, 10))
         n = len(proto["layout"])
@@ -1006,6 +1014,10 @@ def run(ctx):
 
     ctx.note("input distribution: " + ", ".join(f"{k}:{v}" for k, v in sorted(dist.items())))
     ctx.note("component:cases:wall " + " ".join(timing))
+    ctx.note("observations outside the quantifier (merge_per_chunk_storage min/max completeness test): "
+             + (", ".join(f"{k}: {v}" for k, v in OBS.items()) or "none generated"))
+    ctx.note("restriction: the Lean model is the serial protocol; parallel='thread' / 'process' and the threaded processor are tied by "
+             "correspondence of final states and (thread) operation traces only; process mode: chunk writes are not traced")
 
 
 def search(ctx):
